@@ -125,6 +125,14 @@ def run (ops : WordOps D) (cfg : Cfg) : List D → List (List (PortIn D)) → Li
   | _, [] => []
   | mem, c :: cs => let r := cycle ops cfg mem c; r.2 :: run ops cfg r.1 cs
 
+/-- Contents at power-on: `Node_Memory::simulatePowerOn` (Node_Memory.cpp:163-170) copies the declared power-on state iff
+`requiresPowerOnInitialization()` (:185-204): a memory without write port (ROM) is always initialised, a memory with write ports
+iff the clock of its write ports has the register attribute `initializeMemory` (Clock.cpp:209-216: it follows `initializeRegs`
+unless `ClockConfig::initializeMemory` is given explicitly); otherwise every bit is undefined.  (A declared state without any
+defined bit is "not initialised" as well, :187 — the same contents.) -/
+def powerOn (ops : WordOps D) (declared : List D) (isRom initializeMemory : Bool) : List D :=
+  if isRom || initializeMemory then declared else declared.map (fun _ => ops.undef)
+
 /-- `L` registers behind a signal: the value `L` cycles ago, `none` while the registers still hold their power-on content -/
 def delayed {α : Type} (L : Nat) (xs : List α) : List (Option α) := List.replicate L none ++ xs.map some
 
